@@ -18,6 +18,9 @@ def parseFlag (s : String) : Option Bool :=
 def ids (l : List T) : String := natList (l.map T.id)
 def eids (l : List E) : String := natList (l.map fun e => e.head.id)
 
+def opts (l : List (Option Nat)) : String :=
+  " ".intercalate (l.map fun | some i => toString i | none => "-")
+
 def evs (l : List Ev) : String :=
   " ".intercalate (l.map fun
     | .before i => s!"b{i}"
@@ -70,6 +73,32 @@ def handle (ws : List String) : String :=
         | "internaledges" => if hasParent then "bad-start" else eids (treeInternalEdges ex t)
         | "apply" => evs (applyTrace t)
         | "applyzip" => evs (applyZipTrace t)
+        | "applyptr" => match parsePar rest with
+          | some par => evs (applyPtrTrace par start)
+          | none => "bad-op"
+        | "levelgen" => match parsePar rest, ages.toNat? with
+          | some par, some k => opts (lvSolo (heapOf par) ⟨0, .init start⟩ k)
+          | _, _ => "bad-op"
+        | "gensched" => match parsePar rest, ages.splitOn ":" with
+          | some par, [kinds, b, sched] => match b.toNat?, kinds.toList with
+            | some b, [k1, k2] =>
+              let nx := fun (c : Char) => if c == 'p' then some pvNext else if c == 'l' then some lvNext else none
+              match nx k1, nx k2 with
+              | some n1, some n2 =>
+                if (tree.find? b).isNone then "bad-start" else
+                " ".intercalate ((gSched n1 n2 (heapOf par) ⟨0, .init start⟩ ⟨1, .init b⟩ (sched.toList.map (· == '1'))).map
+                  fun e => (if e.1 then "1:" else "0:") ++ (match e.2 with | some i => toString i | none => "-"))
+              | _, _ => "bad-op"
+            | _, _ => "bad-op"
+          | _, _ => "bad-op"
+        | "levelsched" => match parsePar rest, ages.splitOn ":" with
+          | some par, [b, sched] => match b.toNat? with
+            | some b =>
+              if (tree.find? b).isNone then "bad-start" else
+              " ".intercalate ((lvSched (heapOf par) ⟨0, .init start⟩ ⟨1, .init b⟩ (sched.toList.map (· == '1'))).map
+                fun e => (if e.1 then "1:" else "0:") ++ (match e.2 with | some i => toString i | none => "-"))
+            | none => "bad-op"
+          | _, _ => "bad-op"
         | "len" => toString (lenTree t)
         | "ageasc" | "agedesc" | "ageascint" | "agedescint" =>
           match (ages.splitOn ",").mapM Frac.parse with
